@@ -125,6 +125,9 @@ def gen_aec(rng, pools):
     r = {"at": rng.choice([0, 1, 2, 3, 4, 5, 9]), "ip": rbytes(rng, pools.ips[:2])}
     if rng.random() < 0.5: r["ac"] = rng.choice([0, 3, 255])
     if rng.random() < 0.5: r["atf"] = rng.choice([0, 1, 2])
+    # whatever the caller left in GenericAddressEventCount::ae_count (e.g. a record obtained from read_generic_aec of another
+    # file): the block counts the calls, the member is not part of the event's identity
+    if rng.random() < 0.4: r["n"] = rng.choice([0, 1, 2, 7, 2**64 - 1])
     return r
 
 
